@@ -95,16 +95,35 @@ func runC09(c *hx.Ctx) *hx.Outcome {
 		descs = append(descs, fmt.Sprintf("%s slow=%d stall=%v", cs.desc, cs.slow, cs.stall))
 	}
 	maxChunk := []int{1, 3, 64, 4096, 8096}[t.S(5)]
-	if c.Detail {
-		o.Sample = map[string]any{"segments": gnss.Describe(segs), "wire_len": len(wire), "wire_hex": hexShort(wire), "line_faults": faults, "consumers": descs, "max_chunk": maxChunk}
+	// the reader may fail before the end: a fatal error, or (with the zero
+	// tolerance most runs use) a premature EOF / timeout
+	var readerFault []env.Interruption
+	if len(wire) > 0 && t.SBool(1, 6) {
+		in := env.Interruption{At: t.S(len(wire) + 1), Silence: -1}
+		switch t.S(3) {
+		case 0:
+			in.Fatal = true
+		case 1:
+			in.Timeout = true
+		}
+		readerFault = append(readerFault, in)
+		o.Fault("source:fails-before-the-end")
 	}
-	want, refPanic := sequentialRef(wire)
-
+	if c.Detail {
+		o.Sample = map[string]any{"reader_fault": readerFault, "segments": gnss.Describe(segs), "wire_len": len(wire), "wire_hex": hexShort(wire), "line_faults": faults, "consumers": descs, "max_chunk": maxChunk}
+	}
 	s := c.NewSim()
 	s.ChooseStrategy()
 	s.SetStarveKey([]string{"consumer", "file_handler", "app_core", "handler.go"}[t.D(4)])
 	s.Budget = 96*(len(wire)+16)*(1+nonNil/2) + 8192
-	src := &env.Source{T: t, Data: wire, MaxChunk: maxChunk, ZeroReads: t.SBool(1, 4), DataWithErr: t.SBool(1, 3)}
+	src := &env.Source{T: t, Data: wire, MaxChunk: maxChunk, ZeroReads: t.SBool(1, 4), DataWithErr: t.SBool(1, 3), Ints: readerFault}
+	var moreSrc []*env.Source
+	for i := t.SW(7, 2, 1); i > 0; i-- {
+		_, w2, _ := genNoisyStream(c, o)
+		moreSrc = append(moreSrc, &env.Source{T: t, Data: w2, MaxChunk: maxChunk})
+		o.Probe("further-input-through-the-same-appcore")
+		s.Budget += 96 * (len(w2) + 16) * (1 + nonNil/2)
+	}
 	returned := false
 	retCode := -1
 	var liveAtEnd []string
@@ -146,6 +165,15 @@ func runC09(c *hx.Ctx) *hx.Outcome {
 		}
 		ac := appcore.New(&cfg, chans)
 		retCode = ac.HandleMessagesUntilEOF(startTime, bufio.NewReader(src))
+		// the production loop reconnects and processes the next input through the
+		// SAME AppCore: further sources, one call each
+		for _, more := range moreSrc {
+			if retCode != 0 {
+				break
+			}
+			s.Logf("next input through the same AppCore")
+			retCode = ac.HandleMessagesUntilEOF(startTime, bufio.NewReader(more))
+		}
 		returned = true
 		s.Logf("entry point returned %d", retCode)
 		for _, cs := range cons {
@@ -159,6 +187,21 @@ func runC09(c *hx.Ctx) *hx.Outcome {
 	liveAtEnd = s.Live()
 	o.Verdict, o.Strategy = verdict, rt.StratNames[s.Strategy]
 	o.SimTime = s.Elapsed()
+	// the reference: sequential framing of the bytes the reader actually supplied
+	want, refPanic := sequentialRef(src.Handed)
+	if len(readerFault) == 0 && len(src.Handed) != len(wire) && returned && len(s.Panics) == 0 {
+		o.Fail("C09/source-not-exhausted", "the call returned after %d of %d bytes of the source were read", len(src.Handed), len(wire))
+	}
+	for _, more := range moreSrc {
+		w2, p2 := sequentialRef(more.Handed)
+		want = append(want, w2...)
+		if refPanic == "" {
+			refPanic = p2
+		}
+		if len(more.Handed) != len(more.Data) && returned && len(s.Panics) == 0 {
+			o.Fail("C09/source-not-exhausted", "a later input through the same AppCore was read to %d of %d bytes", len(more.Handed), len(more.Data))
+		}
+	}
 	o.ProbeN("source-reads", src.Reads)
 	o.ProbeN("zero-length-reads", src.ZeroN)
 	o.ProbeN("quiet-bursts-of-empty-reads", src.QuietBursts)
@@ -262,7 +305,7 @@ func runC13(c *hx.Ctx) *hx.Outcome {
 			break
 		}
 		lastAt = at
-		in := env.Interruption{At: at}
+		in := env.Interruption{At: at, Mixed: t.S(4) == 0}
 		kind := t.SW(4, 4, 2, 1) // EOF-resume, timeout-resume, silence, fatal
 		switch kind {
 		case 0, 1:
